@@ -18,7 +18,11 @@ Inductive case :=
        (mnemonic password : str) (ob : res string) (expected : string)
 (* the five constructors on one mnemonic: observed (key, chain) of wallet.master for each route and network *)
 | Routes (o : oracles) (nf : list (str * str)) (u8 : list (str * string)) (pb : list (string * string * Z * string))
-         (entropy_hex mnemonic password : str) (obs : list (res (string * string))).
+         (entropy_hex mnemonic password : str) (obs : list (res (string * string)))
+(* BaseWallet.from_mnemonic on arbitrary text (irregular white space, other scripts) x both networks: observed (key, chain,
+   stored mnemonic); the master key material recomputed independently by the driver from exactly the given text *)
+| MnRoute (o : oracles) (nf : list (str * str)) (u8 : list (str * string)) (pb : list (string * string * Z * string))
+          (mnemonic password : str) (obs : list (res (string * string * str))) (exp_key exp_chain : string).
 
 Definition mat (r : res (node * bool * option str * option str)) : res (bytes * bytes) :=
   rmap (fun p => match p with (m, _, _, _) => (nkey m, nchain m) end) r.
@@ -59,5 +63,24 @@ Definition check_case (c : case) : Z :=
                   | Err :: rest => forallb (fun ob => negb (is_ok ob)) rest
                   | [] => false
                   end in
+      verdict agrees prop
+  | MnRoute o nf u8 pb mn pw obs ek ec =>
+      let nfkd := fun s => slookup nf [-1] s in
+      let utf8 := fun s => unhex (slookup u8 "ff"%string s) in
+      let pbk := pb_lookup pb in
+      let hm := hmac512 o in
+      let ms := map (fun t => from_mnemonic hm nfkd utf8 pbk mn pw t) [false; true] in
+      let same (m : res (node * bool * option str * option str)) (ob : res (string * string * str)) : bool :=
+        match m, ob with
+        | Err, Err => true
+        | Ok (nd, _, Some smn, _), Ok (k', c', smn') =>
+            (be2z (nkey nd) =? be2z (unhex k')) && beq_bytes (nchain nd) (unhex c') && beq_bytes smn smn'
+        | _, _ => false
+        end in
+      let agrees := (List.length ms =? List.length obs)%nat && forallb (fun p => same (fst p) (snd p)) (combine ms obs) in
+      let prop := negb (List.length obs =? 0)%nat &&
+                  forallb (fun ob => match ob with
+                                     | Ok (k', c', smn') => (be2z (unhex ek) =? be2z (unhex k')) && beq_bytes (unhex ec) (unhex c') && beq_bytes smn' mn
+                                     | Err => false end) obs in
       verdict agrees prop
   end.
